@@ -23,7 +23,7 @@ func (e *Engine) initAllowed(pkg *ssa.Package) bool {
 
 // Boot creates the initial state and runs the package initialisers of roots (and their whitelisted imports).
 func (e *Engine) Boot(roots []*ssa.Package) (*State, error) {
-	st := &State{Gen: e.newGen(), PC: e.tb.True, Heap: map[ObjID]*Object{}, Globals: map[*ssa.Global]ObjID{}}
+	st := &State{Gen: e.newGen(), PC: e.tb.True, SPC: e.tb.True, Heap: map[ObjID]*Object{}, Globals: map[*ssa.Global]ObjID{}}
 	main := &Thread{ID: 0, Name: "main", Harness: true}
 	st.nextTID = 1
 	st.Threads = []*Thread{main}
